@@ -223,6 +223,44 @@ impl NodeCtx {
                     Err(e) => json!({"err": format!("{:?}", e), "t_call": t_call, "t_ret": self.now()}),
                 }
             }
+            // ---- a compaction that runs AMONG writes: n client writes are in flight at once (appended, some not yet applied) when the
+            // compaction is started; everything is awaited. The requests are given by the caller (fresh keys: re-applying them is idempotent)
+            "burst_with_compaction" => {
+                let reqs: Vec<ClientRequest> = op["reqs"].as_array().cloned().unwrap_or_default().into_iter().map(serde_json::from_value).collect::<Result<_, _>>()?;
+                let before = op["compact_after"].as_u64().unwrap_or(3) as usize;
+                let mut handles = vec![];
+                let mut compaction = None;
+                for (i, req) in reqs.into_iter().enumerate() {
+                    let raft = app.raft.clone();
+                    handles.push(actix_rt::spawn(async move { raft.client_write(ClientWriteRequest::new(req)).await.map(|r| r.index).map_err(|e| format!("{:?}", e)) }));
+                    if i + 1 == before {
+                        let store = app.raft_store.clone();
+                        // let the first writes get under way (log appends and applies are separate steps of the raft core)
+                        tokio::time::sleep(Duration::from_micros(op["lead_us"].as_u64().unwrap_or(300))).await;
+                        compaction = Some(actix_rt::spawn(async move { store.do_log_compaction().await.map(|sn| sn.index).map_err(|e| e.to_string()) }));
+                    }
+                    if i % 3 == 2 {
+                        tokio::task::yield_now().await;
+                    }
+                }
+                let mut acked = vec![];
+                let mut refused = 0;
+                for h in handles {
+                    match h.await {
+                        Ok(Ok(i)) => acked.push(i),
+                        _ => refused += 1,
+                    }
+                }
+                let snap_index = match compaction {
+                    Some(c) => match c.await {
+                        Ok(Ok(i)) => json!(i),
+                        Ok(Err(e)) => json!({"err": e}),
+                        Err(e) => json!({"err": e.to_string()}),
+                    },
+                    None => Value::Null,
+                };
+                json!({"acked": acked.len(), "refused": refused, "max_index": acked.iter().max(), "min_index": acked.iter().min(), "snapshot_index": snap_index})
+            }
             "publish" => {
                 // the leader-local publish path: history id issued by the config actor's own sequence
                 let key = ConfigKey::new(&s(op, "data_id"), &s(op, "group"), &s(op, "tenant"));
